@@ -295,6 +295,30 @@ def run_replay(check_id, path, repo, as_json):
     return 1 if viol else 0
 
 
+def selftest(repo):
+    """setup_cmd: the harness imports the tree under test, renders the .pyx
+    files and explores a 2-tick lattice in both configurations."""
+    from . import backend, lattice
+    import importlib
+    backend.setup(repo)
+    ok = backend.render_pyx()
+    print("pyx-model: %s" % ("rendered %s" % sorted(backend.pyx_info()) if ok
+                             else "UNAVAILABLE (%s)" % backend.pyx_error()))
+    mod = importlib.import_module("checks.c01")
+    n = 0
+    for be in (["py", "pyx"] if ok else ["py"]):
+        backend.use(be)
+        task = {"backend": be, "N": 2, "regime": ["dense", 1, 2], "shard": 0,
+                "nshards": 1, "menu": [0.0, 0.25]}
+        with common.quiet():
+            r = mod.run_task(task)
+        n += r.states
+        if r.viol:
+            print("selftest: C01 reports %s on the 2-tick lattice (%s)" % (sorted(r.viol), be))
+    print("selftest ok: %d states explored" % n)
+    return 0
+
+
 def main(argv=None):
     ap = argparse.ArgumentParser(prog="check")
     ap.add_argument("check_id")
@@ -311,6 +335,8 @@ def main(argv=None):
     common.REPO = repo
     os.environ.setdefault("PYTHONHASHSEED", "0")
     cid = a.check_id.upper()
+    if cid == "SELFTEST":
+        return selftest(repo)
     if a.replay:
         return run_replay(cid, a.replay, repo, a.json)
     return run_check(cid, a.tier, repo, a.jobs, common.SEED)
